@@ -5,6 +5,7 @@ package mqtt
 
 import (
 	"context"
+	"errors"
 	"time"
 )
 
@@ -50,6 +51,7 @@ func VerifH_SYS_C09() {
 		}()
 	}
 	connected := false
+	connectReturned := false
 	var connErr error
 	verifOnQuiescence(func() {
 		verifReach("quiescent")
@@ -60,6 +62,12 @@ func VerifH_SYS_C09() {
 		}
 		if stopKind == 1 && stopped {
 			verifAssert(b.dials == dialsAtStop, "C09.no_dial_after_disconnect")
+		}
+		if stopKind == 2 && stopped {
+			verifAssert(connectReturned, "C09.connect_returns_after_cancel")
+			if connectReturned && connErr != nil {
+				verifAssert(errors.Is(connErr, context.Canceled), "C09.cancelled_connect_reports_context_error")
+			}
 		}
 		if stopKind == 2 && stopped && !connected {
 			// cancelled before the first connection succeeded: never dials again
@@ -124,6 +132,7 @@ func VerifH_SYS_C09() {
 	})
 	_, connErr = cli.Connect(ctx, "cid", WithCleanSession(false), WithKeepAlive(0), WithUserNamePassword("u", "p"))
 	connected = connErr == nil
+	connectReturned = true
 	verifEvent("app:connect-returned")
 	if connErr == nil {
 		_ = cli.Publish(context.Background(), &Message{Topic: "t", QoS: QoS1, Payload: []byte{1}})
